@@ -60,14 +60,20 @@ func (e *emitter) op(name string, args ...string) string {
 	res := guardT(opLimit(name), func() string { return f(args) })
 	// what the PREVIOUS op handed out must still be what it was (no package-level buffer, no shared backing array)
 	if res != "hang" {
-		for _, k := range keptPrev {
+		for i, k := range keptPrev {
 			now := guardT(2*time.Second, k.live)
 			if now != k.snap {
 				res += " ALIASED:" + k.op
+				keptPrev = append(keptPrev[:i:i], keptPrev[i+1:]...) // reported once
 				break
 			}
 		}
-		keptPrev, keptCur = keptCur, nil
+		// results of the last few ops stay under watch (the call that reuses the storage may come several ops later)
+		keptPrev = append(keptPrev, keptCur...)
+		if len(keptPrev) > keepWindow {
+			keptPrev = keptPrev[len(keptPrev)-keepWindow:]
+		}
+		keptCur = nil
 	} else {
 		keptPrev, keptCur = nil, nil
 	}
@@ -76,7 +82,7 @@ func (e *emitter) op(name string, args ...string) string {
 }
 
 // Retention. An op may register the live objects it obtained from the implementation (byte slices, structures) with a
-// closure that serialises them again; after the NEXT op has run, the closure must still give the same text. A result that
+// closure that serialises them again; after each of the next few ops (keepWindow results stay under watch) the closure must still give the same text. A result that
 // changed was aliasing storage the implementation reuses between calls: the next op's line is marked "ALIASED:<op>".
 type kept struct {
 	op, snap string
@@ -87,6 +93,8 @@ var (
 	keptPrev, keptCur []kept
 	curOpName         string
 )
+
+const keepWindow = 64
 
 func retain(live func() string) {
 	keptCur = append(keptCur, kept{curOpName, live(), live})
